@@ -81,6 +81,8 @@ type ctxVar struct {
 	// Special case: var is counter.
 	cntrF bool
 	cntr  int
+	// Special case: var is a byte string kept in buf (an empty one included).
+	bytesF bool
 
 	ins inspector.Inspector
 }
@@ -122,6 +124,7 @@ func (ctx *Ctx) Set(key string, val any, ins inspector.Inspector) *Ctx {
 			ctx.vars[i].ins = ins
 			ctx.vars[i].buf = ctx.vars[i].buf[:0]
 			ctx.vars[i].cntrF = false
+			ctx.vars[i].bytesF = false
 			return ctx
 		}
 	}
@@ -133,6 +136,7 @@ func (ctx *Ctx) Set(key string, val any, ins inspector.Inspector) *Ctx {
 		ctx.vars[ctx.ln].ins = ins
 		ctx.vars[ctx.ln].buf = ctx.vars[ctx.ln].buf[:0]
 		ctx.vars[ctx.ln].cntrF = false
+		ctx.vars[ctx.ln].bytesF = false
 	} else {
 		// Extend the variable list with new one.
 		ctx.vars = append(ctx.vars, ctxVar{
@@ -173,6 +177,7 @@ func (ctx *Ctx) SetBytes(key string, val []byte) *Ctx {
 			ctx.vars[i].ins = ins
 			ctx.vars[i].val = nil
 			ctx.vars[i].cntrF = false
+			ctx.vars[i].bytesF = true
 			return ctx
 		}
 	}
@@ -182,10 +187,12 @@ func (ctx *Ctx) SetBytes(key string, val []byte) *Ctx {
 		ctx.vars[ctx.ln].ins = ins
 		ctx.vars[ctx.ln].val = nil
 		ctx.vars[ctx.ln].cntrF = false
+		ctx.vars[ctx.ln].bytesF = true
 	} else {
 		v := ctxVar{
-			key: key,
-			ins: ins,
+			key:    key,
+			ins:    ins,
+			bytesF: true,
 		}
 		v.buf = append(v.buf, val...)
 		ctx.vars = append(ctx.vars, v)
@@ -220,6 +227,7 @@ func (ctx *Ctx) SetCounter(key string, val int) *Ctx {
 			ctx.vars[i].ins = ins
 			ctx.vars[i].val = nil
 			ctx.vars[i].buf = ctx.vars[i].buf[:0]
+			ctx.vars[i].bytesF = false
 			return ctx
 		}
 	}
@@ -230,6 +238,7 @@ func (ctx *Ctx) SetCounter(key string, val int) *Ctx {
 		ctx.vars[ctx.ln].ins = ins
 		ctx.vars[ctx.ln].val = nil
 		ctx.vars[ctx.ln].buf = ctx.vars[ctx.ln].buf[:0]
+		ctx.vars[ctx.ln].bytesF = false
 	} else {
 		v := ctxVar{
 			key:   key,
@@ -310,6 +319,7 @@ func (ctx *Ctx) AcquireFrom(pool string) (any, error) {
 func (ctx *Ctx) Reset() {
 	for i := 0; i < ctx.ln; i++ {
 		ctx.vars[i].cntrF = false
+		ctx.vars[i].bytesF = false
 		ctx.vars[i].val = nil
 		ctx.vars[i].buf = ctx.vars[i].buf[:0]
 	}
@@ -385,7 +395,7 @@ func (ctx *Ctx) get(path []byte) any {
 		v := &ctx.vars[i]
 		if v.key == ctx.bufS[0] {
 			// Var found.
-			if v.val == nil && len(v.buf) > 0 {
+			if v.bytesF {
 				// Special case: var is a byte slice.
 				// Return variable's own buffer: a shared buffer would alias two bytes variables read in one tag.
 				ctx.bufX = &v.buf
@@ -434,7 +444,7 @@ func (ctx *Ctx) cmp(path []byte, cond op, right []byte) bool {
 			// Compare var with right value using inspector.
 			if v.cntrF {
 				ctx.Err = v.ins.Compare(&v.cntr, inspector.Op(cond), byteconv.B2S(right), &ctx.BufB, ctx.bufS[1:]...)
-			} else if v.val == nil && len(v.buf) > 0 {
+			} else if v.bytesF {
 				// Special case: var is a byte slice.
 				ctx.Err = v.ins.Compare(&v.buf, inspector.Op(cond), byteconv.B2S(right), &ctx.BufB, ctx.bufS[1:]...)
 			} else {
@@ -468,7 +478,7 @@ func (ctx *Ctx) cmpLC(lc lc, path []byte, cond op, right []byte) bool {
 		v := &ctx.vars[i]
 		if v.key == ctx.bufS[0] {
 			switch {
-			case v.val == nil && len(v.buf) > 0 && (lc == lcLen || lc == lcCap):
+			case v.bytesF && (lc == lcLen || lc == lcCap):
 				// Special case: var is a byte slice. The buffer is the context's own copy: its spare room
 				// depends on what the slot held before and is not a property of the data.
 				ctx.bufI = len(v.buf)
